@@ -18,9 +18,9 @@ C_TOL = 64.0          # calibrated: see DESIGN 3.4 and evidence max_ratio
 KAPPA_CAP = 1.0e4
 
 OPKINDS = ["train", "eval", "use_cache", "forward", "inverse", "fwdbwd", "update",
-           "load", "double", "float", "zero_grad", "deepcopy", "restart"]
+           "load", "double", "float", "zero_grad", "deepcopy", "restart", "freeze", "unfreeze"]
 READS = ["forward", "inverse", "fwdbwd"]
-CHANGERS = ["load", "double", "float", "train", "deepcopy", "restart", "use_cache", "fwdbwd"]
+CHANGERS = ["load", "double", "float", "train", "deepcopy", "restart", "use_cache", "fwdbwd", "freeze", "unfreeze"]
 
 
 def _T():
@@ -158,7 +158,7 @@ class C10World(World):
                        "load_with_filled_cache", "dtype_change_with_filled_cache", "deepcopy_with_filled_cache",
                        "restart_with_filled_cache", "interrupt_on_cached_path", "backward_through_cache_hit",
                        "parameter_update_in_training", "failed_partial_load_with_filled_cache", "partial_load_with_filled_cache",
-                       "submodule_only_load_with_filled_cache",
+                       "submodule_only_load_with_filled_cache", "requires_grad_toggled_with_filled_cache", "cache_hit_with_frozen_parameters_under_grad",
                        "rejected_call_with_filled_cache", "successful_call_after_fault"]
 
     # ------------------------------------------------------------ config
@@ -527,6 +527,8 @@ class C10World(World):
                 return
             if hit:
                 self.probes["cache_hit_served"] += 1
+                if gm == "grad" and not any(p.requires_grad for p in self.leaf.parameters()):
+                    self.probes["cache_hit_with_frozen_parameters_under_grad"] += 1
                 if self.generation_fill_after_train:
                     self.probes["hit_after_refill_following_train"] += 1
                 if kind == "fwdbwd":
@@ -620,6 +622,14 @@ class C10World(World):
         elif kind == "use_cache":
             self.leaf.use_cache(bool(op["on"]))
             log.add("use_cache", bool(op["on"]))
+        elif kind in ("freeze", "unfreeze"):
+            # frozen parameters are the use-case the cache exists for: entries filled then carry no graph
+            # and are retained also under grad mode
+            self.M.requires_grad_(kind == "unfreeze")
+            self.U.requires_grad_(kind == "unfreeze")
+            if any(self._cache_flags()[0]):
+                self.probes["requires_grad_toggled_with_filled_cache"] += 1
+            log.add(kind)
         elif kind == "update":
             if not self.M.training or not self.leaf.training:
                 log.add("update_skipped_not_training")   # the property restricts updates to training mode
@@ -658,7 +668,7 @@ class C10World(World):
         else:
             raise HarnessError("unknown op %r" % (op,))
         if kind not in READS:
-            self.sync(full=kind not in ("train", "eval", "use_cache", "zero_grad"))
+            self.sync(full=kind not in ("train", "eval", "use_cache", "zero_grad", "freeze", "unfreeze"))
         if not any(self._cache_flags()[0]):
             self.dirty = False
 
@@ -669,6 +679,8 @@ class C10World(World):
         torch = _T()
         how = op.get("how", "perturb")
         params = [p for p in self.M.parameters()]
+        if how == "sgd" and not any(p.requires_grad for p in params):
+            how = "perturb"          # frozen model: nothing for an optimiser to do; perturb instead
         if how == "sgd":
             x = self.make_x({"x": op["seed"], "rows": 3})
             lr = float(op["mag"]) * 0.3
